@@ -14,6 +14,9 @@ import (
 // four farmers with arbitrary farmed amounts, natural queue activation, epoch timing with gaps, prices going
 // away and coming back, reserves moving (donations), swap fees arriving, external reward programs.
 
+// denoms the app's SwapFeeDistrDenom moves between (all of them are also deposit denoms of created gauges)
+var feeDenoms = []string{"ucmdx", "ushared", "uddd"}
+
 func pow10(k int) *big.Int { return new(big.Int).Exp(big.NewInt(10), big.NewInt(int64(k)), nil) }
 
 func rndBig(rng *sim.Rng, max *big.Int) *big.Int {
@@ -95,7 +98,7 @@ func drive(lg *sim.Log, seed int64, idx, steps int) {
 	dts := []time.Duration{time.Hour, 6 * time.Hour, 12*time.Hour + time.Second, 12 * time.Hour, 13 * time.Hour, 24*time.Hour + time.Second,
 		25 * time.Hour, 30 * time.Hour, 49 * time.Hour, 80 * time.Hour, 6 * time.Second}
 	for k := 0; k < steps; k++ {
-		switch rng.Weighted([]int{12, 22, 10, 34, 4, 3, 3, 9}) {
+		switch rng.Weighted([]int{12, 22, 10, 34, 4, 3, 6, 9, 3}) {
 		case 0: // create gauge
 			a := &createArgs{From: "gc", GType: 1}
 			a.Pool = int64(1 + rng.Intn(3))
@@ -112,8 +115,10 @@ func drive(lg *sim.Log, seed int64, idx, steps int) {
 			if nextOwn < len(ownDenoms) && rng.Intn(5) != 0 {
 				a.Denom = ownDenoms[nextOwn]
 				nextOwn++
-			} else if rng.Intn(4) == 0 {
-				a.Denom = "uddd" // a priced asset, also used by lend reward programs
+			} else if x := rng.Intn(6); x == 0 {
+				a.Denom = "uddd" // a priced asset, also used by lend reward programs and as swap-fee distribution denom
+			} else if x == 1 {
+				a.Denom = "ucmdx" // the default swap-fee distribution denom
 			} else {
 				a.Denom = "ushared"
 			}
@@ -206,11 +211,27 @@ func drive(lg *sim.Log, seed int64, idx, steps int) {
 		case 6: // swap fees accumulate at a pair's fee collector (paid out by the pool's swap-fee gauge)
 			p := rng.Intn(3)
 			amt := amount(3000, 10)
-			err := e.App.BankKeeper.SendCoins(e.Ctx, sim.Addr("gc"), fx.pairs[p].GetSwapFeeCollectorAddress(), sdk.NewCoins(coin("ucmdx", amt)))
+			gp, err := e.App.LiquidityKeeper.GetGenericParams(e.Ctx, fx.app)
 			must(err)
-			cur = r.node(cur, "SwapFee", map[string]interface{}{"p": p + 1, "amt": sim.Limbs(amt)}, nil, fx.project(e))
+			denom := gp.SwapFeeDistrDenom // fees are converted to the current distribution denom; sometimes a stale denom is left behind
+			if rng.Intn(6) == 0 {
+				denom = feeDenoms[rng.Intn(len(feeDenoms))]
+			}
+			err = e.App.BankKeeper.SendCoins(e.Ctx, sim.Addr("gc"), fx.pairs[p].GetSwapFeeCollectorAddress(), sdk.NewCoins(coin(denom, amt)))
+			must(err)
+			cur = r.node(cur, "SwapFee", map[string]interface{}{"p": p + 1, "amt": sim.Limbs(amt), "denom": denom}, nil, fx.project(e))
 		case 7: // external reward programs and the positions they pay
 			cur = fx.extStep(r, e, rng, cur, bigMode)
+		case 8: // governance changes what the swap-fee gauges read: distribution denom and burn rate
+			distr, burn := "", int64(-1)
+			if rng.Intn(4) != 0 {
+				distr = feeDenoms[rng.Intn(len(feeDenoms))]
+			}
+			if distr == "" || rng.Intn(3) == 0 {
+				burn = []int64{0, 0, 100, 500}[rng.Intn(4)]
+			}
+			fx.setGov(e, distr, burn)
+			cur = r.node(cur, "Gov", map[string]interface{}{"distr": distr, "burn": burn}, nil, fx.project(e))
 		}
 	}
 }
